@@ -93,6 +93,11 @@ fn build(setup: &Setup) -> Result<AnnotationStore, String> {
 /// for a source range on side `from`: the pieces per fragment it is made of, or None if some position is not inside a fragment
 fn pieces(setup: &Setup, from: usize, range: (usize, usize)) -> Option<Vec<(usize, (usize, usize))>> {
     let mut out = Vec::new();
+    if range.0 == range.1 {
+        // a zero-width source: covered when it lies inside or at an edge of a fragment (sources on the seam of two fragments are not generated)
+        let f = (0..setup.nfrag).find(|f| setup.frags[from][*f].0 <= range.0 && range.0 <= setup.frags[from][*f].1)?;
+        return Some(vec![(f, range)]);
+    }
     let mut cur = range.0;
     while cur < range.1 {
         let f = (0..setup.nfrag).find(|f| setup.frags[from][*f].0 <= cur && cur < setup.frags[from][*f].1)?;
@@ -135,6 +140,16 @@ fn one_source(rep: &mut Report, rng: &mut Rng, setup: &Setup, store: &mut Annota
         };
         if b < e && e <= len && !ranges.iter().any(|r| !(e <= r.0 || b >= r.1)) {
             ranges.push((b, e));
+        }
+    }
+    // now and then a single zero-width source at the begin, inside or at the END of a fragment
+    if rng.chance(1, 8) {
+        let f = rng.below(setup.nfrag);
+        let fr = setup.frags[from][f];
+        let pos = *rng.pick(&[fr.0, fr.1, (fr.0 + fr.1) / 2, fr.1]);
+        let touching = (0..setup.nfrag).filter(|g| setup.frags[from][*g].0 <= pos && pos <= setup.frags[from][*g].1).count();
+        if touching == 1 {
+            ranges = vec![(pos, pos)];
         }
     }
     if ranges.is_empty() {
